@@ -9,6 +9,10 @@ pub enum P {
     C10,
     C11,
     C18,
+    /// The oversize clause of C05 seen through the whole client (the limit
+    /// lives in `Network`, which only the event loop can reach): a C10-style
+    /// run in which the broker sends one frame above the client's limit.
+    C05,
 }
 
 impl P {
@@ -19,6 +23,7 @@ impl P {
             P::C10 => "C10",
             P::C11 => "C11",
             P::C18 => "C18",
+            P::C05 => "C05",
         }
     }
 }
@@ -88,6 +93,8 @@ pub struct Cfg {
     pub w_close: u32,
     /// Weight of server DISCONNECT (v5).
     pub w_srv_disc: u32,
+    /// The script sends one frame above the client's incoming limit (C05 runs).
+    pub oversize: bool,
     pub ping: PingMode,
     /// Per-cent of reconnects answered with session_present = 1.
     pub sp_pc: u32,
@@ -140,6 +147,7 @@ impl Cfg {
             reason_pc: 0,
             w_close: 0,
             w_srv_disc: 0,
+            oversize: false,
             ping: PingMode::Prompt,
             sp_pc: 70,
             recv_max_pc: 0,
@@ -221,7 +229,7 @@ impl Cfg {
                 c.sp_pc = *ch.choose(&[100u32, 60, 20]);
                 c.max_steps = 300 + c.n_requests * 12;
             }
-            P::C10 => {
+            P::C10 | P::C05 => {
                 c.limit = *ch.choose(&[1u16, 2, 5, 10, 100]);
                 c.cap = 10;
                 c.manual_acks = ch.coin(1, 3);
@@ -238,6 +246,12 @@ impl Cfg {
                 }
                 c.sp_pc = 50;
                 c.max_steps = 400;
+                if prop == P::C05 {
+                    c.oversize = true;
+                    c.w_bad = 0;
+                    c.w_srv_disc = 0;
+                    c.w_inbound = 6;
+                }
             }
             P::C18 => {
                 let modes: &[C18Mode] = if c.v5 {
